@@ -20,4 +20,6 @@ def instances(build, tier, seed):
                           {'LT': l, 'RT': r, 'OPK': opk, 'WANT': exprlib.result_type(opk, l, r), 'LCONV': exprlib.common(l, r), 'RCONV': exprlib.common(l, r), 'FOLD_DIVZERO': None},
                           units=['expr', 'eval', 'type', 'util'], overrides=['fatal', 'xmalloc', 'error'], native_units=exprlib.NATIVE, unwind=4,
                           family='fold.undefined', witness=False, timeout=120, extra=['--div-by-zero-check', '--signed-overflow-check'], bound={'operator': opn, 'inputs': 'divisor 0 or MIN/-1'}))
+    import foldlib
+    L += foldlib.instances(tier)
     return L
